@@ -33,6 +33,11 @@ def cells(tier):
     out.append(cell("s1 A2 flush nocb", sc, MON))
     sc = scen(pool(2, "SimpleTaskPool", ecb="plain", ccb="plain"), [[S("S", 3)], [["stop", 1]], [P]], outcomes=["ret"])
     out.append(cell("simple s2 S3 stop1", sc, MON))
+    # several start() rounds on one SimpleTaskPool (ended, never flushed ids of an earlier round stay "already ended")
+    sc = scen(pool(2, "SimpleTaskPool", ecb="plain", ccb="plain"), [[S("S", 1), S("T", 1), S("U", 1)], [["stop", 1]], [P]], outcomes=["ret"])
+    out.append(cell("simple s2 S1,T1,U1 stop1 (rounds)", sc, MON))
+    sc = scen(pool(1), [[A("A", 1), A("B", 1), M("M", 1, 1)], [cancel(rid("A", 0))], [P]], outcomes=["ret"], ecb="plain", ccb="plain")
+    out.append(cell("s1 A1,B1,M1/1 cancelA0 (rounds)", sc, MON))
     if not q:
         sc = scen(pool(2), [[A("A", 2)], [M("M", 3, 2)], [cancel(rid("A", 1))], [FLUSH], [P]], outcomes=["ret", "exc"],
                   ecb="slow", ccb="plain", slow_ids=[1])
